@@ -202,8 +202,14 @@ func int64Like(t *rapid.T, l ref.Leaf, st Style, label string) int64 {
 
 func fixedBytes(t *rapid.T, n int, st Style, label string) []byte {
 	b := make([]byte, n)
-	k := rapid.IntRange(0, 9).Draw(t, label+"k")
+	k := rapid.IntRange(0, 11).Draw(t, label+"k")
 	switch {
+	case k >= 10:
+		// shared zero prefix, one byte at any position on either side of the sign bit, zero tail:
+		// values that differ first in the middle of a machine word
+		if n > 0 {
+			b[rapid.IntRange(0, n-1).Draw(t, label+"p")] = []byte{0x00, 0x01, 0x7f, 0x80, 0xff}[rapid.IntRange(0, 4).Draw(t, label)]
+		}
 	case st == SmallDom && k < 8, k <= 2:
 		// small domain: only the last byte varies
 		if n > 0 {
